@@ -269,7 +269,7 @@ fn check(prop: &str, tier: &str) -> i32 {
 
     // the real-bash tier (C12 carrier, C13 stub conformance)
     let mut real_report = None;
-    if prop == "C12" || prop == "C13" {
+    if prop == "C12" || prop == "C13" || prop == "C18" {
         let r = real::run_real(prop, tier, seed, threads(), &known);
         real_report = Some(r);
     }
@@ -450,7 +450,7 @@ fn replay(path: &str) -> i32 {
             return 2;
         }
     };
-    if text.contains("\"real_history\"") || text.contains("\"real_expr\"") {
+    if text.contains("\"real_history\"") || text.contains("\"real_expr\"") || text.contains("\"real_env\"") {
         return real::replay_real(path, &text);
     }
     let rf: ReplayFile = match serde_json::from_str(&text) {
